@@ -314,7 +314,7 @@ def build_harness(profile="debug", features=None, threads=False):
     return b
 
 
-def run_replay(binary, bundles, flags, tag, threads=None, deadline=20, timeout=7200):
+def run_replay(binary, bundles, flags, tag, threads=None, deadline=20, timeout=7200, confirm_hangs=True):
     out = os.path.join(RUN, "replay-%s.json" % tag)
     states = os.path.join(RUN, "states-%s.ndjson" % tag)
     th = threads or max(4, NCPU - 2)
@@ -331,6 +331,48 @@ def run_replay(binary, bundles, flags, tag, threads=None, deadline=20, timeout=7
     r["tag"] = tag
     r["bundles_file"] = bundles
     r["flags"] = flags
+    if confirm_hangs and any(f["kind"] == "hang" for f in r["findings"]):
+        r = _confirm_hangs(r, binary, bundles, flags, tag)
+    return r
+
+
+def _norm_path(path_):
+    return json.dumps([[c.get("op"), c.get("a", 0), c.get("b", 0), c.get("v", 0), bool(c.get("checked", False))] for c in path_])
+
+
+def _confirm_hangs(r, binary, bundles, flags, tag):
+    """A call that 'did not return within the deadline' on a loaded machine could be a slow call: every such bundle
+    is replayed again ALONE with a 120 s deadline; only a hang that repeats counts."""
+    wanted = {}
+    for f in r["findings"]:
+        if f["kind"] == "hang" and (f.get("case") or {}).get("path") is not None:
+            wanted[_norm_path(f["case"]["path"])] = f
+    if not wanted:
+        return r
+    one = os.path.join(RUN, "hang-%s.ndjson.gz" % tag)
+    n = 0
+    with gzip.open(bundles, "rt") as fin, gzip.open(one, "wt") as fout:
+        for line in fin:
+            if line.startswith("{") and _norm_path(json.loads(line)["path"]) in wanted:
+                fout.write(line)
+                n += 1
+                if n == len(wanted):
+                    break
+    confirmed = set()
+    if n:
+        r2 = run_replay(binary, one, flags, tag + "-hangcheck", threads=2, deadline=120, confirm_hangs=False)
+        confirmed = {_norm_path(f["case"]["path"]) for f in r2["findings"] if f["kind"] == "hang" and (f.get("case") or {}).get("path") is not None}
+    kept = []
+    dropped = 0
+    for f in r["findings"]:
+        if f["kind"] == "hang" and (f.get("case") or {}).get("path") is not None and _norm_path(f["case"]["path"]) not in confirmed:
+            dropped += 1
+            continue
+        kept.append(f)
+    r["findings"] = kept
+    r["unconfirmed_hangs_dropped"] = dropped
+    if dropped:
+        r["violations"]["C02"] = max(0, r["violations"].get("C02", 0) - dropped)
     return r
 
 
